@@ -1,6 +1,7 @@
 import AlgoVerif.Model.C17
 import AlgoVerif.Spec.C17
 import AlgoVerif.Proofs.C17QF
+import AlgoVerif.Proofs.C17Gen
 /-!
 # C17 — union-find tracks the equivalence closure of all unions
 
@@ -239,3 +240,189 @@ theorem C17_implementations_agree (n : Nat) (us : List (Int × Int)) :
     exact ⟨by rw [h12], by rw [h23]⟩
   · have := T1.count_merges; have := T2.count_merges; omega
   · have := T2.count_merges; have := T3.count_merges; omega
+
+/-! ## the second tie: the Model REGENERATED from the source equals the hand Model
+
+`AlgoVerif.Generated.UnionFind.*` (file `Generated/C17Gen.lean`) is produced from
+`/repo/unionfind/unionfind.go` by the translator `/verif/extract/go2lean` on every run of this check
+(`bin/pre-C17`; scheme, subset and what is trusted: header of `extract/go2lean/main.go`).  The theorems
+below say that every generated definition IS the hand-written Model the theorems above are about — for all
+arguments — and restate the main theorems directly about the generated definitions.  An edit of
+`unionfind.go` that changes what a function computes changes the generated file and one of these stops
+checking.  `qf`, `qu`, `wq` read a generated structure field by field as the Model's; the generated
+`Find` / `Union` / `IsConnected` of the two quick-union types take the fuel of the
+`for p != u.root[p]` loop as their first argument. -/
+
+open AlgoVerif.Generated.UnionFind AlgoVerif.C17.Gen
+
+/-- quick-find: `isValid`, `Find`, `IsConnected`, `Count` -/
+theorem C17_generated_quickFind_queries (u : quickFind) (p q : Int) :
+    quickFind.isValid u p = (qf u).isValid p ∧ quickFind.Find u p = (qf u).find p ∧
+    quickFind.IsConnected u p q = (qf u).isConnected p q ∧ quickFind.Count u = (qf u).getCount :=
+  ⟨quickFind_isValid u p, quickFind_Find u p, quickFind_IsConnected u p q, quickFind_Count u⟩
+
+/-- quick-find: `Union` (the new receiver is the result) -/
+theorem C17_generated_quickFind_Union (u : quickFind) (p q : Int) :
+    (quickFind.Union u p q).map qf = (qf u).union p q :=
+  quickFind_Union u p q
+
+/-- quick-find: `NewQuickFind(n)`; the generated constructor also covers `n < 0` (`make` panics) -/
+theorem C17_generated_quickFind_New :
+    (∀ n : Nat, (NewQuickFind n).map qf = .ok (QuickFind.new n)) ∧ (∀ n : Int, n < 0 → NewQuickFind n = .panic) :=
+  ⟨NewQuickFind_eq, fun _ h => NewQuickFind_neg h⟩
+
+/-- quick-union, for EVERY fuel: the `for p != u.root[p] { p = u.root[p] }` loop is `findLoop` -/
+theorem C17_generated_quickUnion_Find_loop (fuel : Nat) (u : quickUnion) (k : Nat) (p : Int) :
+    quickUnion.Find.loop1 fuel u k p = findLoop u.root k p :=
+  quickUnion_Find_loop fuel u k p
+
+/-- quick-union with fuel `len(u.root)`: `isValid`, `Find`, `IsConnected`, `Count` -/
+theorem C17_generated_quickUnion_queries (u : quickUnion) (p q : Int) :
+    quickUnion.isValid u p = (qu u).isValid p ∧ quickUnion.Find u.root.size u p = (qu u).find p ∧
+    quickUnion.IsConnected u.root.size u p q = (qu u).isConnected p q ∧ quickUnion.Count u = (qu u).getCount :=
+  ⟨quickUnion_isValid u p, quickUnion_Find u p, quickUnion_IsConnected u p q, quickUnion_Count u⟩
+
+theorem C17_generated_quickUnion_Union (u : quickUnion) (p q : Int) :
+    (quickUnion.Union u.root.size u p q).map qu = (qu u).union p q :=
+  quickUnion_Union u p q
+
+theorem C17_generated_quickUnion_New :
+    (∀ n : Nat, (NewQuickUnion n).map qu = .ok (QuickUnion.new n)) ∧ (∀ n : Int, n < 0 → NewQuickUnion n = .panic) :=
+  ⟨NewQuickUnion_eq, fun _ h => NewQuickUnion_neg h⟩
+
+/-- weighted quick-union, for every fuel -/
+theorem C17_generated_weighted_Find_loop (fuel : Nat) (u : weightedQuickUnion) (k : Nat) (p : Int) :
+    weightedQuickUnion.Find.loop1 fuel u k p = findLoop u.root k p :=
+  weighted_Find_loop fuel u k p
+
+theorem C17_generated_weighted_queries (u : weightedQuickUnion) (p q : Int) :
+    weightedQuickUnion.isValid u p = (wq u).isValid p ∧ weightedQuickUnion.Find u.root.size u p = (wq u).find p ∧
+    weightedQuickUnion.IsConnected u.root.size u p q = (wq u).isConnected p q ∧
+    weightedQuickUnion.Count u = (wq u).getCount :=
+  ⟨weighted_isValid u p, weighted_Find u p, weighted_IsConnected u p q, weighted_Count u⟩
+
+theorem C17_generated_weighted_Union (u : weightedQuickUnion) (p q : Int) :
+    (weightedQuickUnion.Union u.root.size u p q).map wq = (wq u).union p q :=
+  weighted_Union u p q
+
+theorem C17_generated_weighted_New :
+    (∀ n : Nat, (NewWeightedQuickUnion n).map wq = .ok (Weighted.new n)) ∧
+    (∀ n : Int, n < 0 → NewWeightedQuickUnion n = .panic) :=
+  ⟨NewWeighted_eq, fun _ h => NewWeighted_neg h⟩
+
+-- non-vacuity: the generated definitions compute; the states are those of the Model's example above
+example : (do let u ← NewQuickFind 6
+              quickFind.run u [(0, 1), (2, 3), (1, 3), (5, 0), (4, 4), (0, 7), (3, 0), (-1, 2)])
+    = .ok ⟨2, #[3, 3, 3, 3, 4, 3]⟩ := by decide
+example : (do let u ← NewQuickUnion 6
+              quickUnion.run u [(0, 1), (2, 3), (1, 3), (5, 0), (4, 4), (0, 7), (3, 0), (-1, 2)])
+    = .ok ⟨2, #[1, 3, 3, 3, 4, 3]⟩ := by decide
+example : (do let u ← NewWeightedQuickUnion 6
+              weightedQuickUnion.run u [(0, 1), (2, 3), (1, 3), (5, 0), (4, 4), (0, 7), (3, 0), (-1, 2)])
+    = .ok ⟨2, #[0, 0, 0, 2, 4, 0], #[5, 1, 2, 1, 1, 1]⟩ := by decide
+example : quickUnion.Find 4 ⟨1, #[1, 2, 3, 3]⟩ 0 = .ok (3, true) ∧
+    quickUnion.Find 3 ⟨1, #[1, 2, 3, 3]⟩ 0 = .diverge ∧ quickUnion.Find 5 ⟨1, #[1, 2, 3, 7]⟩ 0 = .panic := by decide
+
+/-! ### the C17 statements, about the generated definitions
+
+`X.run u us` (defined in `Proofs/C17Gen.lean`) makes the generated `Union` calls of the history one after
+the other, each with fuel `len(u.root)`. -/
+
+/-- quick-find, generated: from `NewQuickFind(n)` every history runs to completion and the generated
+queries are those of the equivalence closure -/
+theorem C17_generated_quickFind_tracks (n : Nat) (us : List (Int × Int)) :
+    ∃ u0 u, NewQuickFind n = .ok u0 ∧ quickFind.run u0 us = .ok u ∧
+      Tracks n us (quickFind.Find u) (quickFind.IsConnected u) (quickFind.Count u) := by
+  obtain ⟨m, hm, T⟩ := C17_quickFind_tracks n us
+  obtain ⟨u0, h0, e0⟩ := map_eq_ok (NewQuickFind_eq n)
+  have hr := quickFind_run us u0
+  rw [e0, hm] at hr
+  obtain ⟨u, hu, eu⟩ := map_eq_ok hr
+  refine ⟨u0, u, h0, hu, ?_⟩
+  have e1 : quickFind.Find u = m.find := funext fun p => eu ▸ quickFind_Find u p
+  have e2 : quickFind.IsConnected u = m.isConnected :=
+    funext fun p => funext fun q => eu ▸ quickFind_IsConnected u p q
+  have e3 : quickFind.Count u = m.getCount := eu ▸ quickFind_Count u
+  rw [e1, e2, e3]; exact T
+
+/-- quick-union, generated; fuel `n = len(u.root)` suffices for every `Find` -/
+theorem C17_generated_quickUnion_tracks (n : Nat) (us : List (Int × Int)) :
+    ∃ u0 u, NewQuickUnion n = .ok u0 ∧ quickUnion.run u0 us = .ok u ∧ u.root.size = n ∧
+      Tracks n us (quickUnion.Find n u) (quickUnion.IsConnected n u) (quickUnion.Count u) := by
+  obtain ⟨m, hm, T⟩ := C17_quickUnion_tracks n us
+  obtain ⟨u0, h0, e0⟩ := map_eq_ok (NewQuickUnion_eq n)
+  have hr := quickUnion_run us u0
+  rw [e0, hm] at hr
+  obtain ⟨u, hu, eu⟩ := map_eq_ok hr
+  have hs : u.root.size = n := by
+    have := (C17_quickUnion_find_terminates n us m hm).1
+    rw [← eu] at this; exact this
+  refine ⟨u0, u, h0, hu, hs, ?_⟩
+  have e1 : quickUnion.Find n u = m.find := funext fun p => by rw [← hs, ← eu]; exact quickUnion_Find u p
+  have e2 : quickUnion.IsConnected n u = m.isConnected :=
+    funext fun p => funext fun q => by rw [← hs, ← eu]; exact quickUnion_IsConnected u p q
+  have e3 : quickUnion.Count u = m.getCount := eu ▸ quickUnion_Count u
+  rw [e1, e2, e3]; exact T
+
+/-- weighted quick-union, generated -/
+theorem C17_generated_weighted_tracks (n : Nat) (us : List (Int × Int)) :
+    ∃ u0 u, NewWeightedQuickUnion n = .ok u0 ∧ weightedQuickUnion.run u0 us = .ok u ∧ u.root.size = n ∧
+      Tracks n us (weightedQuickUnion.Find n u) (weightedQuickUnion.IsConnected n u) (weightedQuickUnion.Count u) := by
+  obtain ⟨m, hm, T⟩ := C17_weighted_tracks n us
+  obtain ⟨u0, h0, e0⟩ := map_eq_ok (NewWeighted_eq n)
+  have hr := weighted_run us u0
+  rw [e0, hm] at hr
+  obtain ⟨u, hu, eu⟩ := map_eq_ok hr
+  have hs : u.root.size = n := by
+    have := (C17_weighted_find_terminates n us m hm).1
+    rw [← eu] at this; exact this
+  refine ⟨u0, u, h0, hu, hs, ?_⟩
+  have e1 : weightedQuickUnion.Find n u = m.find := funext fun p => by rw [← hs, ← eu]; exact weighted_Find u p
+  have e2 : weightedQuickUnion.IsConnected n u = m.isConnected :=
+    funext fun p => funext fun q => by rw [← hs, ← eu]; exact weighted_IsConnected u p q
+  have e3 : weightedQuickUnion.Count u = m.getCount := eu ▸ weighted_Count u
+  rw [e1, e2, e3]; exact T
+
+/-- the caller may pass ANY fuel ≥ `len(u.root)`: after any history the generated `Find` of both
+quick-union types answers as with fuel `n` (it never diverges, so more fuel changes nothing) -/
+theorem C17_generated_find_any_fuel (n : Nat) (us : List (Int × Int)) (fuel : Nat) (hf : n ≤ fuel) (p : Int) :
+    (∀ u0 u, NewQuickUnion n = .ok u0 → quickUnion.run u0 us = .ok u →
+      quickUnion.Find fuel u p = quickUnion.Find n u p) ∧
+    (∀ u0 u, NewWeightedQuickUnion n = .ok u0 → weightedQuickUnion.run u0 us = .ok u →
+      weightedQuickUnion.Find fuel u p = weightedQuickUnion.Find n u p) := by
+  obtain ⟨j, rfl⟩ : ∃ j, fuel = n + j := ⟨fuel - n, by omega⟩
+  constructor
+  · intro u0 u h0 hu
+    have e0 : qu u0 = QuickUnion.new n := by
+      have := NewQuickUnion_eq n; rw [h0] at this; simpa using this
+    have hr := quickUnion_run us u0
+    rw [hu, e0] at hr
+    obtain ⟨hs, -, -, hfind⟩ := C17_quickUnion_find_terminates n us (qu u) (by simpa using hr.symm)
+    simp only [quickUnion.Find, quickUnion_Find_loop]
+    by_cases hv : quickUnion.isValid u p = true
+    · have hp : Valid n p := by
+        simpa [quickUnion.isValid, Valid, show u.root.size = n from hs] using hv
+      obtain ⟨r, hr', -⟩ := hfind p hp
+      simp only [qu_root] at hr'
+      simp [hv, hr', findLoop_mono u.root n j p r hr']
+    · simp [hv]
+  · intro u0 u h0 hu
+    have e0 : wq u0 = Weighted.new n := by
+      have := NewWeighted_eq n; rw [h0] at this; simpa using this
+    have hr := weighted_run us u0
+    rw [hu, e0] at hr
+    obtain ⟨hs, -, -, -, hfind⟩ := C17_weighted_find_terminates n us (wq u) (by simpa using hr.symm)
+    simp only [weightedQuickUnion.Find, weighted_Find_loop]
+    by_cases hv : weightedQuickUnion.isValid u p = true
+    · have hp : Valid n p := by
+        simpa [weightedQuickUnion.isValid, Valid, show u.root.size = n from hs] using hv
+      obtain ⟨r, hr', -⟩ := hfind p hp
+      simp only [wq_root] at hr'
+      simp [hv, hr', findLoop_mono u.root n j p r hr']
+    · simp [hv]
+
+-- non-vacuity: the hypotheses of the last theorem are met by the example history, and fuel matters below n
+example : ∃ u0 u, NewQuickUnion 4 = .ok u0 ∧ quickUnion.run u0 [(0, 1), (0, 2), (0, 3)] = .ok u ∧
+    quickUnion.Find 4 u 0 = .ok (3, true) ∧ quickUnion.Find 9 u 0 = .ok (3, true) ∧
+    quickUnion.Find 3 u 0 = .diverge :=
+  ⟨⟨4, #[0, 1, 2, 3]⟩, ⟨1, #[1, 2, 3, 3]⟩, by decide, by decide, by decide, by decide, by decide⟩
